@@ -32,12 +32,12 @@ theorem mem_prefixes_take {α} (l pre : List α) (h : pre ∈ prefixes l) : ∃ 
 
 /-- Repaired variant, any starting file system, any content, any crash point: `_load` still
 selects what it selected before, or the new version, fully written. -/
-theorem crash_sel_atomic (fs : FS) (c : Content) (cls v k : Nat) :
-    storageLoad (crashFS ⟨.atomicReplace⟩ fs c cls v k) = storageLoad fs ∨
-      (c ≠ .bothFail ∧ storageLoad (crashFS ⟨.atomicReplace⟩ fs c cls v k) = .ok cls v) := by
+theorem crash_sel_atomic (sw : Bool) (fs : FS) (c : Content) (cls : Cls) (v k : Nat) :
+    storageLoad (crashFS ⟨.atomicReplace, sw⟩ fs c cls v k) = storageLoad fs ∨
+      (c ≠ .bothFail ∧ storageLoad (crashFS ⟨.atomicReplace, sw⟩ fs c cls v k) = .ok cls v) := by
   unfold crashFS
-  have hm := take_mem_prefixes (saveSteps (Cfg.mk .atomicReplace).saveMode c cls v) k
-  generalize (saveSteps (Cfg.mk .atomicReplace).saveMode c cls v).take k = pre at hm
+  have hm := take_mem_prefixes (saveSteps (Cfg.mk .atomicReplace sw).saveMode c cls v) k
+  generalize (saveSteps (Cfg.mk .atomicReplace sw).saveMode c cls v).take k = pre at hm
   obtain ⟨d, p, q, pt, ct⟩ := fs
   cases c <;>
     simp [saveSteps, attempt, prefixes] at hm <;>
@@ -47,21 +47,21 @@ theorem crash_sel_atomic (fs : FS) (c : Content) (cls v k : Nat) :
 
 /-- ... and the two save files themselves are untouched by every prefix of a save that fails
 under both picklers -/
-theorem crash_bothFail_files_atomic (fs : FS) (cls v k : Nat) :
-    (crashFS ⟨.atomicReplace⟩ fs .bothFail cls v k).pckl = fs.pckl ∧
-      (crashFS ⟨.atomicReplace⟩ fs .bothFail cls v k).cpckl = fs.cpckl := by
+theorem crash_bothFail_files_atomic (sw : Bool) (fs : FS) (cls : Cls) (v k : Nat) :
+    (crashFS ⟨.atomicReplace, sw⟩ fs .bothFail cls v k).pckl = fs.pckl ∧
+      (crashFS ⟨.atomicReplace, sw⟩ fs .bothFail cls v k).cpckl = fs.cpckl := by
   unfold crashFS
-  have hm := take_mem_prefixes (saveSteps (Cfg.mk .atomicReplace).saveMode .bothFail cls v) k
-  generalize (saveSteps (Cfg.mk .atomicReplace).saveMode .bothFail cls v).take k = pre at hm
+  have hm := take_mem_prefixes (saveSteps (Cfg.mk .atomicReplace sw).saveMode .bothFail cls v) k
+  generalize (saveSteps (Cfg.mk .atomicReplace sw).saveMode .bothFail cls v).take k = pre at hm
   obtain ⟨d, p, q, pt, ct⟩ := fs
   simp [saveSteps, attempt, prefixes] at hm
   rcases hm with rfl | rfl | rfl | rfl | rfl | rfl <;>
     simp [runSteps, Step.apply, FS.set]
 
 /-- a save that raises (content unserialisable by both picklers) leaves both save files alone -/
-theorem save_bothFail_files_atomic (fs : FS) (cls v : Nat) :
-    (saveFS ⟨.atomicReplace⟩ fs .bothFail cls v).pckl = fs.pckl ∧
-      (saveFS ⟨.atomicReplace⟩ fs .bothFail cls v).cpckl = fs.cpckl := by
+theorem save_bothFail_files_atomic (sw : Bool) (fs : FS) (cls : Cls) (v : Nat) :
+    (saveFS ⟨.atomicReplace, sw⟩ fs .bothFail cls v).pckl = fs.pckl ∧
+      (saveFS ⟨.atomicReplace, sw⟩ fs .bothFail cls v).cpckl = fs.cpckl := by
   obtain ⟨d, p, q, pt, ct⟩ := fs
   simp only [saveFS, saveSteps, attempt, List.cons_append, List.nil_append, runSteps, Step.apply,
     FS.set]
@@ -72,25 +72,25 @@ theorem storageLoad_congr (a b : FS) (h1 : a.pckl = b.pckl) (h2 : a.cpckl = b.cp
     storageLoad a = storageLoad b := by
   simp [storageLoad, h1, h2]
 
-theorem save_bothFail_sel_atomic (fs : FS) (cls v : Nat) :
-    storageLoad (saveFS ⟨.atomicReplace⟩ fs .bothFail cls v) = storageLoad fs :=
-  storageLoad_congr _ _ (save_bothFail_files_atomic fs cls v).1 (save_bothFail_files_atomic fs cls v).2
+theorem save_bothFail_sel_atomic (sw : Bool) (fs : FS) (cls : Cls) (v : Nat) :
+    storageLoad (saveFS ⟨.atomicReplace, sw⟩ fs .bothFail cls v) = storageLoad fs :=
+  storageLoad_congr _ _ (save_bothFail_files_atomic sw fs cls v).1 (save_bothFail_files_atomic sw fs cls v).2
 
 /-! ### a completed save is what `_load` selects (both variants, any starting file system) -/
 
-theorem save_last_wins (cfg : Cfg) (fs : FS) (c : Content) (cls v : Nat) (hc : c ≠ .bothFail) :
+theorem save_last_wins (cfg : Cfg) (fs : FS) (c : Content) (cls : Cls) (v : Nat) (hc : c ≠ .bothFail) :
     storageLoad (saveFS cfg fs c cls v) = .ok cls v := by
   obtain ⟨d, p, q, pt, ct⟩ := fs
-  obtain ⟨m⟩ := cfg
+  obtain ⟨m, sw⟩ := cfg
   cases m <;> cases c <;>
     simp_all [saveFS, saveSteps, attempt, runSteps, Step.apply, FS.set, FS.get, FS.noFiles, storageLoad]
 
 /-- after a completed save no temporary is left and the directory exists -/
-theorem save_ok_tidy (cfg : Cfg) (fs : FS) (c : Content) (cls v : Nat) (hc : c ≠ .bothFail)
+theorem save_ok_tidy (cfg : Cfg) (fs : FS) (c : Content) (cls : Cls) (v : Nat) (hc : c ≠ .bothFail)
     (ht : fs.pcklTmp = .absent ∨ cfg.saveMode = .atomicReplace) :
     (saveFS cfg fs c cls v).dir = true ∧ (saveFS cfg fs c cls v).pcklTmp = .absent := by
   obtain ⟨d, p, q, pt, ct⟩ := fs
-  obtain ⟨m⟩ := cfg
+  obtain ⟨m, sw⟩ := cfg
   cases m <;> cases c <;>
     simp_all [saveFS, saveSteps, attempt, runSteps, Step.apply, FS.set, FS.get, FS.noFiles]
 
@@ -101,8 +101,8 @@ theorem delete_cleans (cfg : Cfg) (fs : FS) :
       hasSaved (deleteFS cfg fs) = false ∧ storageLoad (deleteFS cfg fs) = .notFound ∧
       ¬ ((deleteFS cfg fs).dir = true ∧ (deleteFS cfg fs).noFiles = true) := by
   obtain ⟨d, p, q, pt, ct⟩ := fs
-  obtain ⟨m⟩ := cfg
-  cases m <;> cases p <;> cases q <;> cases d <;>
+  obtain ⟨m, sw⟩ := cfg
+  cases m <;> cases sw <;> cases p <;> cases q <;> cases d <;>
     simp [deleteFS, deleteSteps, hasSaved, runSteps, Step.apply, FS.set, FS.noFiles, storageLoad] <;>
     (try split) <;> simp_all
 
@@ -111,25 +111,25 @@ def WF (fs : FS) : Prop := fs.dir = false → fs.noFiles = true
 
 theorem delete_wf (cfg : Cfg) (fs : FS) (h : WF fs) : WF (deleteFS cfg fs) := by
   obtain ⟨d, p, q, pt, ct⟩ := fs
-  obtain ⟨m⟩ := cfg
-  cases m <;> cases d <;>
+  obtain ⟨m, sw⟩ := cfg
+  cases m <;> cases sw <;> cases d <;>
     simp_all [WF, deleteFS, deleteSteps, hasSaved, runSteps, Step.apply, FS.set, FS.noFiles] <;>
     (repeat' split) <;> simp_all
 
-theorem save_wf (cfg : Cfg) (fs : FS) (c : Content) (cls v : Nat) : WF (saveFS cfg fs c cls v) := by
+theorem save_wf (cfg : Cfg) (fs : FS) (c : Content) (cls : Cls) (v : Nat) : WF (saveFS cfg fs c cls v) := by
   obtain ⟨d, p, q, pt, ct⟩ := fs
-  obtain ⟨m⟩ := cfg
+  obtain ⟨m, sw⟩ := cfg
   cases m <;> cases c <;>
     simp [WF, saveFS, saveSteps, attempt, runSteps, Step.apply, FS.set, FS.get, FS.noFiles] <;>
     (repeat' split) <;> simp_all
 
-theorem crash_wf (cfg : Cfg) (fs : FS) (c : Content) (cls v k : Nat) (h : WF fs) :
+theorem crash_wf (cfg : Cfg) (fs : FS) (c : Content) (cls : Cls) (v k : Nat) (h : WF fs) :
     WF (crashFS cfg fs c cls v k) := by
   unfold crashFS
   have hm := take_mem_prefixes (saveSteps cfg.saveMode c cls v) k
   generalize (saveSteps cfg.saveMode c cls v).take k = pre at hm
   obtain ⟨d, p, q, pt, ct⟩ := fs
-  obtain ⟨m⟩ := cfg
+  obtain ⟨m, sw⟩ := cfg
   cases m <;> cases c <;>
     simp [saveSteps, attempt, prefixes] at hm <;>
     rcases hm with rfl | rfl | rfl | rfl | rfl | rfl | rfl | rfl | rfl | rfl <;>
@@ -137,20 +137,22 @@ theorem crash_wf (cfg : Cfg) (fs : FS) (c : Content) (cls v k : Nat) (h : WF fs)
 
 /-! ### Node.load -/
 
-theorem nodeLoad_cls (n : NodeSt) (fs : FS) : (nodeLoad n fs).1.cls = n.cls := by
-  unfold nodeLoad
+theorem nodeLoadBy_cls (chk : ClassCheck) (n : NodeSt) (fs : FS) : (nodeLoadBy chk n fs).1.cls = n.cls := by
+  unfold nodeLoadBy
   split <;> (try split) <;> simp
+
+theorem nodeLoad_cls (n : NodeSt) (fs : FS) : (nodeLoad n fs).1.cls = n.cls := nodeLoadBy_cls _ n fs
 
 theorem nodeLoad_refused_unchanged (n : NodeSt) (fs : FS)
     (h : ∀ v, (nodeLoad n fs).2 ≠ .loaded v) : (nodeLoad n fs).1 = n := by
-  unfold nodeLoad at h ⊢
+  unfold nodeLoad nodeLoadBy at h ⊢
   split <;> (try split) <;> simp_all
 
 theorem nodeLoad_ok (n : NodeSt) (fs : FS) (v : Nat) (h : storageLoad fs = .ok n.cls v) :
     nodeLoad n fs = (⟨n.cls, v⟩, .loaded v) := by
-  simp [nodeLoad, h]
+  simp [nodeLoad, nodeLoadBy, ClassCheck.accepts, h]
 
-theorem storageLoad_ok_hasSaved (fs : FS) (c v : Nat) (h : storageLoad fs = .ok c v) :
+theorem storageLoad_ok_hasSaved (fs : FS) (c : Cls) (v : Nat) (h : storageLoad fs = .ok c v) :
     hasSaved fs = true := by
   obtain ⟨d, p, q, pt, ct⟩ := fs
   cases p <;> cases q <;> simp_all [storageLoad, hasSaved]
@@ -180,16 +182,16 @@ theorem step_fs_readonly (cfg : Cfg) (w : World) (op : Op)
 /-! ### the durability invariant -/
 
 /-- what `_load` selects is what the history promises -/
-def Sel (cls : Nat) (p : Promise) (fs : FS) : Prop :=
+def Sel (cls : Cls) (p : Promise) (fs : FS) : Prop :=
   match p.last with
   | some v => ∃ v', storageLoad fs = .ok cls v' ∧ (v' = v ∨ v' ∈ p.inflight)
   | none => storageLoad fs = .notFound ∨ ∃ v', storageLoad fs = .ok cls v' ∧ v' ∈ p.inflight
 
-theorem sel_init (cls : Nat) : Sel cls Promise.init FS.init := by
+theorem sel_init (cls : Cls) : Sel cls Promise.init FS.init := by
   simp [Sel, Promise.init, FS.init, storageLoad]
 
-theorem sel_step_atomic (w : World) (p : Promise) (op : Op) (h : Sel w.node.cls p w.fs) :
-    Sel w.node.cls (p.step op) (step ⟨.atomicReplace⟩ w op).1.fs := by
+theorem sel_step_atomic (sw : Bool) (w : World) (p : Promise) (op : Op) (h : Sel w.node.cls p w.fs) :
+    Sel w.node.cls (p.step op) (step ⟨.atomicReplace, sw⟩ w op).1.fs := by
   cases op with
   | save c v =>
     by_cases hc : c = .bothFail
@@ -197,10 +199,10 @@ theorem sel_step_atomic (w : World) (p : Promise) (op : Op) (h : Sel w.node.cls 
       simp only [step, Promise.step]
       unfold Sel at h ⊢
       rw [save_bothFail_sel_atomic]; exact h
-    · have hl := save_last_wins ⟨.atomicReplace⟩ w.fs c w.node.cls v hc
+    · have hl := save_last_wins ⟨.atomicReplace, sw⟩ w.fs c w.node.cls v hc
       cases c <;> simp_all [step, Promise.step, Sel]
   | crash c v k =>
-    have hs := crash_sel_atomic w.fs c w.node.cls v k
+    have hs := crash_sel_atomic sw w.fs c w.node.cls v k
     unfold Sel at h ⊢
     cases c <;> simp only [step, Promise.step] <;>
       rcases hs with hs | ⟨hne, hs⟩ <;> rw [hs] <;> (try simp at hne) <;>
@@ -209,21 +211,21 @@ theorem sel_step_atomic (w : World) (p : Promise) (op : Op) (h : Sel w.node.cls 
   | reopen => rw [step_fs_readonly _ _ _ (Or.inr (Or.inl rfl))]; exact h
   | loadForeign c v => rw [step_fs_readonly _ _ _ (Or.inr (Or.inr ⟨c, v, rfl⟩))]; exact h
   | delete =>
-    have := (delete_cleans ⟨.atomicReplace⟩ w.fs).2.2.2.1
+    have := (delete_cleans ⟨.atomicReplace, sw⟩ w.fs).2.2.2.1
     simp [step, Promise.step, Sel, this]
 
-theorem sel_run_atomic (w : World) (p : Promise) (ops : List Op) (h : Sel w.node.cls p w.fs) :
-    Sel w.node.cls (promise p ops) (run ⟨.atomicReplace⟩ w ops).fs := by
+theorem sel_run_atomic (sw : Bool) (w : World) (p : Promise) (ops : List Op) (h : Sel w.node.cls p w.fs) :
+    Sel w.node.cls (promise p ops) (run ⟨.atomicReplace, sw⟩ w ops).fs := by
   induction ops generalizing w p with
   | nil => exact h
   | cons op r ih =>
     simp only [run, promise]
-    have := ih (step ⟨.atomicReplace⟩ w op).1 (p.step op) (by rw [step_cls]; exact sel_step_atomic w p op h)
+    have := ih (step ⟨.atomicReplace, sw⟩ w op).1 (p.step op) (by rw [step_cls]; exact sel_step_atomic sw w p op h)
     rwa [step_cls] at this
 
 /-! ### the pinned code: exact durability as long as nothing fails after a good save -/
 
-def SelExact (cls : Nat) (p : Promise) (fs : FS) : Prop :=
+def SelExact (cls : Cls) (p : Promise) (fs : FS) : Prop :=
   ∀ v, p.last = some v → storageLoad fs = .ok cls v
 
 theorem selExact_step (cfg : Cfg) (w : World) (p : Promise) (op : Op) (h : SelExact w.node.cls p w.fs)
@@ -269,10 +271,10 @@ def Whole (fs : FS) : Prop :=
 theorem whole_not_corrupt (fs : FS) (h : Whole fs) : storageLoad fs ≠ .corrupt := by
   obtain ⟨h1 | ⟨c, v, h1⟩, h2 | ⟨c', v', h2⟩⟩ := h <;> simp [storageLoad, h1, h2]
 
-theorem whole_save (cfg : Cfg) (fs : FS) (c : Content) (cls v : Nat) (h : Whole fs) :
+theorem whole_save (cfg : Cfg) (fs : FS) (c : Content) (cls : Cls) (v : Nat) (h : Whole fs) :
     Whole (saveFS cfg fs c cls v) := by
   obtain ⟨d, p, q, pt, ct⟩ := fs
-  obtain ⟨m⟩ := cfg
+  obtain ⟨m, sw⟩ := cfg
   cases m <;> cases c <;>
     simp [Whole, saveFS, saveSteps, attempt, runSteps, Step.apply, FS.set, FS.get, FS.noFiles] at h ⊢ <;>
     (repeat' split) <;> simp_all
